@@ -27,16 +27,18 @@ int vprop_fork = 1;
 int vprop_cpu_limit_s = 60;
 const char *vprop_class_names[V_NCLASS] = {
   "mode_jit", "mode_backup", "mode_emulate", "mode_disable_orc", "lazy_init", "init_function", "compat_bytecode", "compat_old", "no_backup",
-  "inline", "multi_function", "two_d", "accumulators", "typed_params", "float_ops", "memcpy_memset", "difference_within_float_freedom", "refused_by_compat_level", "first_use_without_orc_init", "variable_classes_filled_to_limit", "refused_c_target_register_limit", "backup_directive", NULL
+  "inline", "multi_function", "two_d", "accumulators", "typed_params", "float_ops", "memcpy_memset", "difference_within_float_freedom", "refused_by_compat_level", "first_use_without_orc_init", "variable_classes_filled_to_limit", "refused_c_target_register_limit", "backup_directive", "orcc_test_mode", NULL
 };
 
 void vprop_init (int argc, char **argv) { (void) argc; (void) argv; /* orc_init happens in the child: ORC_CODE is read there */ }
 /* enumerated: mode (3) x destination misalignment (16) */
 /* enumerated: orc_memcpy/orc_memset: mode (3) x destination misalignment (16); then "first use": 3 modes x {lazy, --init-function} */
-uint64_t vprop_enum_count (const char *tier) { (void) tier; return 3 * 16 + 6 + 4 * 2; }    /* + the .backup directive: 4 files x {orc build, DISABLE_ORC build} */
+#define N_TESTMODE 16
+uint64_t vprop_enum_count (const char *tier) { (void) tier; return 3 * 16 + 6 + 4 * 2 + N_TESTMODE; }    /* + the .backup directive: 4 files x {orc build, DISABLE_ORC build} */
 size_t vprop_enum_stream (uint64_t i, uint32_t *out, size_t max)
 {
   (void) max;
+  if (i >= 62) { out[0] = 0xC7C7C7CAu; out[1] = (uint32_t) (i - 62); return 2; }
   if (i >= 54) { out[0] = 0xC7C7C7C9u; out[1] = (uint32_t) ((i - 54) / 2); out[2] = (uint32_t) ((i - 54) % 2); return 3; }
   if (i >= 48) { out[0] = 0xC7C7C7C8u; out[1] = (uint32_t) ((i - 48) / 2); out[2] = (uint32_t) ((i - 48) % 2); return 3; }
   out[0] = 0xC7C7C7C7u; out[1] = (uint32_t) (i / 16); out[2] = (uint32_t) (i % 16); return 3;
@@ -192,6 +194,64 @@ done:
   r->nontrivial = 1;
   r->sub_nontrivial = r->sub_evals;
   r->hash = 0xC9000000u + (uint64_t) k * 2 + (uint64_t) disable_orc;
+  if (!v_arg ("keep", NULL)) { snprintf (cmd, sizeof cmd, "rm -rf %s", dir); if (system (cmd)) {} }
+}
+
+/* ---- orcc --test: the self-test program orcc writes for a .orc file (it builds every function through the API, compiles it, and
+   compares the compiled code and the backup C with emulation on orc-test's own data).  Sixteen generated files (integer programs,
+   and float programs for a third of them); the self-test has to compile, link against liborc-test and pass ---- */
+static void test_mode (VResult *r, int k)
+{
+  const char *scratch = v_arg ("scratch", "/verif/_work/scratch"), *orcc = v_arg ("orcc", NULL), *inc = v_arg ("cg_inc", ""), *libs = v_arg ("testlibs", NULL);
+  static ProgSpec tp[3];
+  static char text[60000];
+  uint32_t stream[400];
+  VChoices vc;
+  GenOpts go;
+  char dir[400], cmd[2400], err[1600], path[500];
+  int nf = 1 + k % 3, f, len = 0, i, rcx;
+  if (!orcc || !libs) { r->verdict = V_DISCARD; return; }
+  for (i = 0; i < 400; i++) stream[i] = (uint32_t) v_mix64 (0x7e57 + (uint64_t) k * 1000003u + (uint64_t) i);
+  stream[0] &= ~0x78u;                   /* no saturation of the variable classes: the self-test runs every function on three back ends */
+  vc.v = stream; vc.n = 400; vc.pos = 0;
+  for (f = 0; f < nf; f++) {
+    gen_opts_default (&go);
+    go.allow_float = (k % 3 == 2) ? 2 : 0; go.max_insns = 8; go.allow_special_loads = 0;
+    ps_generate (&vc, &go, &tp[f], r);
+    snprintf (tp[f].name, sizeof tp[f].name, "tm%d_%d", k, f);
+    len += ps_sprint_orc (&tp[f], text + len, sizeof text - (size_t) len - 10);
+  }
+  v_desc (r, "# C07 orcc --test on a generated file (%d function(s), %s)\n%s", nf, k % 3 == 2 ? "float" : "integer", text);
+  snprintf (dir, sizeof dir, "%s/c07t-%d", scratch, (int) getpid ());
+  snprintf (cmd, sizeof cmd, "rm -rf %s && mkdir -p %s", dir, dir);
+  if (system (cmd) != 0) { r->verdict = V_DISCARD; return; }
+  snprintf (path, sizeof path, "%s/t.orc", dir);
+  { FILE *fo = fopen (path, "w"); if (!fo) { r->verdict = V_DISCARD; return; } fputs (text, fo); fclose (fo); }
+  snprintf (cmd, sizeof cmd, "%s --test -o %s/t.c %s/t.orc > %s/e 2>&1", orcc, dir, dir, dir);
+  snprintf (path, sizeof path, "%s/e", dir);
+  v_stage (r, "orcc --test");
+  rcx = run_cmd (cmd, err, sizeof err, path);
+  if (rcx != 0) {
+    int big = 0;
+    for (f = 0; f < nf; f++) if (tp[f].nvars + 5 > 32) big = 1;
+    if (big && strstr (err, "Failed to compile")) { r->verdict = V_DISCARD; goto done; }
+    v_fail (r, "orcc:test-mode-failed", "orcc --test exits with %d for a well-formed file: %.300s", rcx, err); goto done;
+  }
+  snprintf (cmd, sizeof cmd, "TMPDIR=%s gcc -std=gnu11 -O1 -w -DORC_ENABLE_UNSTABLE_API %s -o %s/t %s/t.c %s -lm -lpthread > %s/e 2>&1", dir, inc, dir, dir, libs, dir);
+  v_stage (r, "compile the self-test");
+  if (run_cmd (cmd, err, sizeof err, path) != 0) { const char *e = strstr (err, "error"); v_fail (r, "cc:rejects-generated-code:test-mode", "gcc rejects the self-test orcc --test wrote: %.300s", e ? e : err); goto done; }
+  snprintf (cmd, sizeof cmd, "cd %s && timeout 120 ./t > %s/e 2>&1", dir, dir);
+  v_stage (r, "run the self-test");
+  rcx = run_cmd (cmd, err, sizeof err, path);
+  if (rcx != 0) {
+    const char *e = strstr (err, "FAILED");
+    v_fail (r, "test-mode:self-test-fails", "the self-test orcc --test generated reports a failure (exit %d) although every function is well-formed: %.400s", rcx, e ? (e > err + 200 ? e - 200 : err) : err);
+  }
+done:
+  r->classes |= 1u << 22;
+  r->nontrivial = 1;
+  r->sub_evals = (uint64_t) nf; r->sub_nontrivial = r->sub_evals;
+  r->hash = 0xCA000000u + (uint64_t) k;
   if (!v_arg ("keep", NULL)) { snprintf (cmd, sizeof cmd, "rm -rf %s", dir); if (system (cmd)) {} }
 }
 
@@ -351,6 +411,7 @@ void vprop_case (VChoices *c, VResult *r)
   uint64_t h = 0;
   uint32_t craw;
 
+  if (c->n >= 2 && c->v[0] == 0xC7C7C7CAu) { test_mode (r, (int) (c->v[1] % N_TESTMODE)); return; }
   if (c->n >= 3 && c->v[0] == 0xC7C7C7C9u) { backup_directive (r, (int) (c->v[1] % 4), (int) (c->v[2] % 2)); return; }
   if (c->n >= 3 && c->v[0] == 0xC7C7C7C8u) { first_use (r, (int) (c->v[1] % 3), (int) (c->v[2] % 2)); return; }
   if (c->n >= 3 && c->v[0] == 0xC7C7C7C7u) { memfuncs (r, (int) (c->v[1] % 3), (int) (c->v[2] % 16)); return; }
